@@ -203,6 +203,98 @@ def rspawn_e2e_worker(bdir, lo, hi, tier):
     return res
 
 
+def twoaddr_worker(bdir, lo, hi, tier):
+    """a destination with two addresses (DNS stub): the first server defers at some phase, the client may go on to the
+    second; whatever payload ANY server accepts must be the queued message"""
+    res = core.Result()
+    b = build.Build("asan", bdir)
+    home = build.mktemp("nqv-c06m-")
+    s1 = s2 = None
+    for _ in range(20):
+        try:
+            s1 = smtpsink.Sink("127.0.0.1")
+            s2 = smtpsink.Sink("127.0.0.2", s1.port)
+            break
+        except OSError:
+            if s1:
+                s1.close()
+            s1 = s2 = None
+    if s1 is None:
+        res.inconclusive.append("could not bind one port on 127.0.0.1 and 127.0.0.2")
+        return res
+    try:
+        sandbox.make_home(b, home, controls={"me": "client.test", "timeoutremote": 5, "timeoutconnect": 3,
+                                             "smtproutes": ":twoaddr.c06.test:%d" % s1.port}, bins=("qmail-remote",))
+        for i in range(lo, hi):
+            rng = core.case_rng(PROP, i, "twoaddr")
+            msg = smtpdata.gen_message(rng)
+            if len(msg) < 4:
+                msg = b"Subject: two\n\n" + msg + b"\n"
+            mf = home + "/msg"
+            with open(mf, "wb") as f:
+                f.write(msg)
+            with open(home + "/queue/lock/tcpto", "wb") as f:
+                f.write(b"\0" * 1024)
+            where = rng.choice(["dot", "dot", "dot", "data", "mail", "rcpt", "greet", "helo", "refused", "refused"])
+            sandbox.write_control(home, "smtproutes", ":%s.c06.test:%d" % ("refused" if where == "refused" else "twoaddr", s1.port))
+            code = rng.choice([b"451", b"421", b"452"])
+            kw = {where: code + b" please come back later\r\n"} if where not in ("rcpt", "refused") else ({"rcpt": [code + b" later\r\n"]} if where == "rcpt" else {})
+            s1.start(smtpsink.Script(**kw), accept_timeout=10.0 if where != "refused" else 0.5)
+            s2.start(smtpsink.Script(), accept_timeout=2.0 if where != "refused" else 10.0)
+            with open(mf, "rb") as fin:
+                rc, out, err = core.run_with_watchdog([home + "/bin/qmail-remote", "remote.test", "s@client.test", "r@remote.test"],
+                                                      60, env=b.env(home), stdin=fin)
+            t1 = s1.finish(timeout=15)
+            t2 = s2.finish(timeout=6)
+            res.evaluations += 1
+            if rc is None:
+                res.inconclusive.append("qmail-remote watchdog (two addresses)")
+                continue
+            if rc != 0 or b"Sanitizer" in err:
+                res.violate("C20/sanitizer/qmail-remote/" + hrun.sanitizer_site(err.decode("latin1")), "qmail-remote died rc=%s" % rc,
+                            {"msg": core.hx(msg[:300]), "stderr": err[-1500:].decode("latin1")})
+                continue
+            if t1.phase_reached == "no-connection" and t2.phase_reached == "no-connection":
+                res.inconclusive.append("no server was contacted (resolver stub not reached?): %r" % out[:80])
+                continue
+            res.counters.inc("twoaddr_first_server_deferred_at_" + where)
+            if t2.phase_reached != "no-connection":
+                res.counters.inc("twoaddr_second_server_contacted")
+            reports = out.split(b"\0")
+            msgrep = reports[-2] if len(reports) > 1 else b""
+            wit = {"msg_hex": msg[:400].hex(), "first_server_defers_at": where, "reports": core.hx(out[:200]),
+                   "payload_first": core.hx((t1.payload or b"")[:120]), "payload_second": core.hx((t2.payload or b"")[:120])}
+            accepted_ok = False
+            if where == "refused" and not msgrep.startswith(b"K") and msg.endswith(b"\n"):
+                res.violate("C06/twoaddr/no-payload/first-address-refused", "the first address refuses the connection, the second accepts everything, "
+                            "yet the report is %r" % msgrep[:60], wit)
+                continue
+            for name, tr, accepts in (("first", t1, where not in ("dot",)), ("second", t2, True)):
+                if tr.payload is None:
+                    continue
+                if not tr.payload.endswith(b"\r\n.\r\n") and tr.payload != b".\r\n":
+                    continue          # cut short: nothing was accepted there
+                r_ = smtpdata.ref_decode(tr.payload)
+                g = smtpdata.c06_grade(msg, r_[1]) if r_[0] == "ok" and r_[2] == len(tr.payload) else r_[0]
+                if g:
+                    res.violate("C06/twoaddr/%s-server-got-another-message/%s" % (name, g),
+                                "the %s server received a complete DATA payload that does not decode to the queued message (%d bytes for %d)"
+                                % (name, len(r_[1]) if r_[0] == "ok" else -1, len(msg)), wit)
+                    break
+                if accepts:
+                    accepted_ok = True
+            else:
+                if msgrep.startswith(b"K") and not accepted_ok:
+                    res.violate("C06/twoaddr/K-without-complete-payload", "success reported although no server accepted the message", wit)
+                else:
+                    res.counters.inc("twoaddr_ok")
+                    res.nontrivial("twoaddr", i)
+    finally:
+        s1.close()
+        s2.close()
+    return res
+
+
 def main(tier):
     t0 = time.time()
     b = build.vbuild("asan")
@@ -246,12 +338,27 @@ def main(tier):
     nr = core.scaled(96 if tier == "quick" else 2400)
     rres = core.pmap(rspawn_e2e_worker, [(b.dir, lo, hi, tier) for lo, hi in core.chunks(nr, 16)], timeout=1200)
     res.merge(rres)
+    # (e) a destination with two addresses, the first one deferring (resolver stub on 127.0.0.1:53)
+    from .. import dnsstub
+    try:
+        stub = dnsstub.Stub()
+    except OSError:
+        stub = None
+        res.counters.inc("resolver_stub_port_taken_part_e_skipped")
+    if stub is not None:
+        try:
+            nt = core.scaled(64 if tier == "quick" else 1600)
+            res.merge(core.pmap(twoaddr_worker, [(b.dir, lo, hi, tier) for lo, hi in core.chunks(nt, 16)], timeout=1200))
+            res.counters.inc("resolver_stub_queries", stub.queries)
+        finally:
+            stub.close()
     if not res.counters.get("rspawn_deliveries_ok"):
         res.inconclusive.append("no delivery through qmail-rspawn completed")
     rule = ("(a) every string over {CR,LF,'.','a'} of length <= %d through the real blast() under whole / 1-byte / "
             "every split (len<=7) read chunkings + %d random messages up to 64 KB; (b) payloads of length <= %d re-decoded by the "
             "real qmail-smtpd blast(); (c) %d messages real qmail-remote -> loopback server; (d) real qmail-rspawn starting the real "
-            "qmail-remote on queue files, 2-4 deliveries per spawner incl. repeats of one message. Non-trivial = message contains "
+            "qmail-remote on queue files, 2-4 deliveries per spawner incl. repeats of one message; (e) a destination with two addresses "
+            "(resolver stub), the first server deferring at a random phase. Non-trivial = message contains "
             "CR, LF or '.'; distinct = distinct input strings (hash set in the harness, saturating => undercount)." % (maxL, nrand, emitL, ne2e))
     extra = {"exhaustive": True, "exhaustive_scope": "all strings of length <= %d over a 4-symbol alphabet" % maxL}
     return core.finish(PROP, tier, "exploration", res, rule, t0, extra=extra, assumptions=[
